@@ -912,7 +912,9 @@ def calculate_control_matrix_periodic(phases: ndarray, control_matrix: ndarray,
     T = np.multiply.outer(phases, total_propagator_liouville)
     M = eye - T
     if check_invertible:
-        invertible = ~np.isclose(nla.det(M), 0)
+        # The determinant is no measure of the conditioning (it can be far from zero for a nearly
+        # singular matrix); use the explicit sum whenever solving would lose accuracy
+        invertible = nla.cond(M) < 1e8
     else:
         invertible = np.array(True)
 
